@@ -1334,6 +1334,8 @@ class Declaration(Node):
         use_attrs = kwargs.get("attrs", True)
         if self.const:
             decl.append("const ")
+        if self.volatile:
+            decl.append("volatile ")
 
         if self.attrs["_destructor"]:
             decl.append("~")
@@ -1453,6 +1455,8 @@ class Declaration(Node):
         if self.const:
             const_index = len(decl)
             decl.append("const ")
+        if self.volatile:
+            decl.append("volatile ")
 
         if with_template_args and self.template_arguments:
             # Use template arguments from declaration
